@@ -54,31 +54,7 @@ fn ro_gen() -> GenCfg {
     g
 }
 
-struct SinkLogger;
-impl log::Log for SinkLogger {
-    fn enabled(&self, _: &log::Metadata) -> bool {
-        true
-    }
-    fn log(&self, r: &log::Record) {
-        // format the message as a real logger would (Debug impls of the library run here), then throw it away
-        use std::fmt::Write;
-        struct Null;
-        impl std::fmt::Write for Null {
-            fn write_str(&mut self, _: &str) -> std::fmt::Result {
-                Ok(())
-            }
-        }
-        let _ = write!(Null, "{}", r.args());
-    }
-    fn flush(&self) {}
-}
-static SINK: SinkLogger = SinkLogger;
-
-/// process-wide: all cases evaluated concurrently must agree (one block = one setting)
-fn set_logging(on: bool) {
-    let _ = log::set_logger(&SINK);
-    log::set_max_level(if on { log::LevelFilter::Trace } else { log::LevelFilter::Off });
-}
+use crate::session::set_logging;
 
 pub fn eval(c: &RoCase) -> CaseOut {
     set_logging(c.logger);
